@@ -270,6 +270,9 @@ type Opts struct {
 	IDKey     interface{} // signing key for ID tokens / JWT access tokens; nil => server RSA key
 	// LazyConfig leaves the lazily-defaulting Config fields unset (C19).
 	LazyConfig bool
+	// SessFactory, if set, supplies the session objects instead of the harness's own type (used to exercise the
+	// session types fosite ships: fosite.DefaultSession, oauth2.JWTSession). Such worlds cannot run OpenID Connect flows.
+	SessFactory func(subject string) fosite.Session
 }
 
 type World struct {
@@ -431,3 +434,11 @@ func (w *World) AddBearerKey(issuer, subject, kid string, pub interface{}, alg s
 }
 
 func (w *World) DeviceStrategy() *rfc8628.DefaultDeviceStrategy { return w.Dev }
+
+// Session returns a fresh session for a request (the harness type, or the configured shipped type).
+func (w *World) Session(sub string) fosite.Session {
+	if w.Opts.SessFactory != nil {
+		return w.Opts.SessFactory(sub)
+	}
+	return NewSess(sub)
+}
